@@ -80,6 +80,22 @@ def _zero_constraint_counts(
   efc_nnz_out[worldid] = 0
 
 
+@wp.kernel
+def _efc_nnz_overflow(
+  # Data in:
+  njmax_nnz_in: int,
+  # In:
+  efc_nnz_in: wp.array[int],
+  # Data out:
+  overflow_out: wp.array[int],
+):
+  worldid = wp.tid()
+
+  # rows whose non-zeros do not fit are dropped by the row builders: report it
+  if efc_nnz_in[worldid] > njmax_nnz_in:
+    wp.atomic_or(overflow_out, worldid, int(types.OverflowType.NJMAX_NNZ))
+
+
 @wp.func
 def _efc_row(
   # Model:
@@ -5835,3 +5851,6 @@ def make_constraint(m: types.Model, d: types.Data):
             d.efc.frictionloss,
           ],
         )
+
+  if m.is_sparse:
+    wp.launch(_efc_nnz_overflow, dim=d.nworld, inputs=[d.njmax_nnz, efc_nnz], outputs=[d.overflow])
